@@ -2175,6 +2175,7 @@ impl Kanata {
         self.layout.b().queue.is_empty()
             && zippy_is_idle()
             && self.layout.b().waiting.is_none()
+            && self.layout.b().extra_waiting.is_empty()
             && self.layout.b().last_press_tracker.tap_hold_timeout == 0
             && (self.layout.b().oneshot.timeout == 0 || self.layout.b().oneshot.keys.is_empty())
             && self.layout.b().active_sequences.is_empty()
